@@ -8,6 +8,7 @@
 package main
 
 import (
+	"regexp"
 	"bufio"
 	"bytes"
 	"encoding/json"
@@ -63,7 +64,7 @@ type Case struct {
 // ---------------------------------------------------------------- pools
 
 var plainTags = []string{"default", "poll://g/w1", "poll://g", "poll://g/", "poll://g/a/b", "http://x.io/a?b=c", "https://h:8080/p", "nowhere", "ftp://x/y",
-	"", " spaced", "a<b&c>", "é", "poll://G%20x/i%2Fj", "http://[::1]:80/", "::bad url", "%zz", "poll:opaque", "HTTP://UP.case/", "local", "http://x.io/ a", "poll://", "x y"}
+	"", " spaced", "a<b&c>", "é", "poll://G%20x/i%2Fj", "poll://workers:2/a", "poll://g:0/", "poll://g.h-1:8080/w_1", "poll://[g]/x", "poll://[::1]/x", "poll://g:/i", "http://[::1]:80/", "::bad url", "%zz", "poll:opaque", "HTTP://UP.case/", "local", "http://x.io/ a", "poll://", "x y"}
 
 var jsonTags = []string{
 	`{"type":"poll","data":{"group":"g","id":"i"}}`, `{ "type" : "poll" , "data" : { "group" : "g" } }`,
@@ -335,6 +336,24 @@ func runCase(drv *lean.Driver, reg *metrics.Metrics, rt *router.Router, hp *http
 		return "the sender did not complete the submission exactly once (a lost or duplicated hand-off)", fmt.Sprintf("%d completions for recv=%s", len(a.cqes), recv), true
 	}
 	cqe := a.cqes[0]
+	// direct C18 / C19 clause, independent of the model: poll://group/id addresses exactly that group and that id of the
+	// poll transport (for groups and ids written with letters, digits, '.', '_', '-' and ':' there is nothing to decode)
+	if name != nil && got != nil && gotPlugin == "poll" {
+		if m := pollAddr.FindStringSubmatch(*name); m != nil {
+			targeted := false
+			for _, t := range c.Targets {
+				targeted = targeted || t.Name == *name
+			}
+			var d struct {
+				Group string `json:"group"`
+				Id    string `json:"id"`
+			}
+			if !targeted && (json.Unmarshal(got.Data, &d) != nil || d.Group != m[1] || d.Id != m[2]) {
+				return "a poll:// address was handed to the poll transport with another group or id", fmt.Sprintf("address %q handed over as %s", *name, got.Data), true
+			}
+			counts["poll_addresses"]++
+		}
+	}
 	counts["dispatch:"+fmt.Sprint(out["k"])]++
 	if out["k"] == "handed" && c.Plugin != "full" {
 		if got == nil {
@@ -374,6 +393,8 @@ func runCase(drv *lean.Driver, reg *metrics.Metrics, rt *router.Router, hp *http
 	}
 	return "", "", false
 }
+
+var pollAddr = regexp.MustCompile(`^poll://([A-Za-z0-9._:-]+)/([A-Za-z0-9._-]*)$`)
 
 func deref(s *string) string {
 	if s == nil {
